@@ -3,6 +3,7 @@ import JunoModel.C20.Model
 import JunoModel.C20.Heap
 import JunoModel.C20.Alias
 import JunoModel.C20.Poller
+import JunoModel.C20.ClassAlias
 /-!
 Line-protocol driver for the C20 model (`lake build c20drv`). All numbers are decimal.
 
@@ -34,6 +35,9 @@ Line-protocol driver for the C20 model (`lake build c20drv`). All numbers are de
   newchain <n,n,..|->                                -> err | ok <length> <numbers oldest first>   (preconfirmed.NewChain)
   emptydiff <num> <hash|->                           -> err | <diff>   (makeStateDiffForEmptyBlock; hash = BlockHeaderHashByNumber(num-10))
   ppre <height> <highest|->                          -> notip | tip(ident,txCount)   (the tick up to the latest poll, which fails)
+
+  `apply … -> changed <entry> cm=<nil|caller|shared|fresh>`: which OBJECT the affected entry's NewClasses map is (ClassAlias.lean);
+  `state` / `statebi` reads are followed by ` cm=<nil|fresh>`: the class table handed to pending.NewState (never a published map)
 
   classes: `-` or `h:d,h:d`     txs: `-` or `tx;tx`, tx = hash/tag/bad/rhash/rtag/events/diff/kind/reverted
   diff: `-` or sections joined by `+`: s=a:k:v,..  n=a:v,..  d=a:c  r=a:c  c1=h:c  m=h:c  c0=h,h
@@ -153,6 +157,8 @@ structure DState where
   slots : List Nat := []
   chs   : List Nat := []
   bases : AMap Nat Tables := []
+  cmem  : CAlias.CMem := []          -- the `NewClasses` map objects (ClassAlias.lean)
+  crefs : List CAlias.CRef := []     -- the map value of every node of `store` (newest first, aligned with `nodes`)
 
 def showOpt : Option Nat → String
   | none => "nf"
@@ -220,6 +226,33 @@ def mkRaw (kind : String) (n : Nat) (how : String) : Option RawEnvelope :=
   | "B" => some (.block m u)
   | _ => none
 
+/-- after a poller tick (whose class maps come from `fetchDeclaredClasses` and are not tracked one by
+one): load every stored entry's class table into a fresh object -/
+def resyncClasses (s : DState) : DState :=
+  match s.store with
+  | none => { s with crefs := [] }
+  | some r =>
+    let (m, refs) := r.nodes.foldl (fun (acc : CAlias.CMem × List CAlias.CRef) e =>
+        if e.classes.isEmpty then (acc.1, acc.2 ++ [none])
+        else
+          let (m', a) := CAlias.calloc acc.1 e.classes
+          (m', acc.2 ++ [a])) (s.cmem, [])
+    { s with cmem := m, crefs := refs }
+
+def sameBelow (w : Nat) (m m' : CAlias.CMem) : Bool := (List.range w).all fun a => m'[a]? == m[a]?
+
+/-- the class table a state over view `v` up to block `blk` gets, at object level: the readers' loop
+over the map objects of the visited entries. `none` = the object model disagrees with the value model
+or wrote a published object; else which object the table is (`nil` | `fresh` | `published`) -/
+def stateClassOrigin (s : DState) (v : Reader) (blk : Nat) (p : PState) : Option String :=
+  let refs := ((s.crefs.take v.length).reverse).take (blk + 1 - v.oldest)
+  let (m', r) := CAlias.accumulate s.cmem refs
+  if showPairs (CAlias.cget m' r) != showPairs p.classes then none
+  else if !sameBelow s.cmem.length s.cmem m' then none
+  else some (match r with
+    | none => "nil"
+    | some a => if a ≥ s.cmem.length then "fresh" else "published")
+
 def showOutcome : Outcome → String
   | .changed _ aff => "changed " ++ showEntry aff
   | .noop => "noop"
@@ -234,10 +267,25 @@ def doApply (s : DState) (u : Update) (num baseTx oldest cls : String) : DState 
     let aliasOk := match out with
       | .changed _ aff => aliasAgrees aff.txDiffs aff.diff
       | _ => true
-    ({ s with store := st', hstore := hs' },
-      if !agree then "HEAP-MISMATCH " ++ showOutcome hout
-      else if !aliasOk then "ALIAS-MISMATCH " ++ showOutcome out
-      else showOutcome out)
+    -- the class-map objects: the caller's map (nil when empty), the map of the entry at the tip
+    let (cm1, caller) := if c.isEmpty then (s.cmem, (none : CAlias.CRef)) else CAlias.calloc s.cmem c.reverse
+    let target : CAlias.CRef := match u with
+      | .block _ _ _ => none
+      | _ => (s.crefs.head?).join
+    match out with
+    | .changed chain aff =>
+      let (cm2, r) := CAlias.applyClassRef cm1 u target caller
+      let cOk := showPairs (CAlias.cget cm2 r) == showPairs aff.classes && sameBelow cm1.length cm1 cm2
+      let tok := CAlias.origin cm1.length target caller r
+      let crefs' := r :: s.crefs.drop (s.crefs.length - (chain.nodes.length - 1))
+      ({ s with store := st', hstore := hs', cmem := cm2, crefs := crefs' },
+        if !agree then "HEAP-MISMATCH " ++ showOutcome hout
+        else if !aliasOk then "ALIAS-MISMATCH " ++ showOutcome out
+        else if !cOk then "CALIAS-MISMATCH " ++ showOutcome out
+        else showOutcome out ++ " cm=" ++ tok)
+    | _ =>
+      ({ s with store := st', hstore := hs' },
+        if !agree then "HEAP-MISMATCH " ++ showOutcome hout else showOutcome out)
   | _, _, _, _ => (s, "bad-op")
 
 
@@ -291,7 +339,7 @@ def optNat (s : String) : Option Nat := if s == "-" then none else nat? s
 
 def step (s : DState) (line : String) : DState × String :=
   match words line with
-  | ["reset"] => ({ s with store := none, hstore := {}, bases := [] }, "ok")
+  | ["reset"] => ({ s with store := none, hstore := {}, bases := [], cmem := [], crefs := [] }, "ok")
   | ["apply", "B", num, baseTx, oldest, cls, ident, verOk, txs] =>
     match nat? verOk, parseTxs? txs with
     | some v, some txs => doApply s (.block ident (v != 0) txs) num baseTx oldest cls
@@ -306,7 +354,10 @@ def step (s : DState) (line : String) : DState × String :=
     | some o =>
       let (st', b) := advanceTo s.store o
       let (hs', hb) := hadvanceTo s.hstore o
-      ({ s with store := st', hstore := hs' }, if b == hb then toString b else "HEAP-MISMATCH")
+      let crefs' := match st' with
+        | none => []
+        | some r => s.crefs.take r.nodes.length
+      ({ s with store := st', hstore := hs', crefs := crefs' }, if b == hb then toString b else "HEAP-MISMATCH")
     | none => (s, "bad-op")
   | ["snap", b] =>
     match nat? b with
@@ -391,8 +442,10 @@ def step (s : DState) (line : String) : DState × String :=
           | .error _ => "bad-op"
           | .ok p =>
             let es := v.oldestFirst.take (blk + 1 - v.oldest)
-            if aliasAgrees (es.map (·.diff)) p.diff then showReads s p ++ " " ++ showLastUpd s p es
-            else "ALIAS-MISMATCH")
+            if !aliasAgrees (es.map (·.diff)) p.diff then "ALIAS-MISMATCH"
+            else match stateClassOrigin s v blk p with
+              | none => "CALIAS-MISMATCH"
+              | some tok => showReads s p ++ " cm=" ++ tok ++ " " ++ showLastUpd s p es)
     | _, _ => (s, "bad-op")
   | ["statebi", b, blk, idx] =>
     match nat? b, nat? blk, nat? idx with
@@ -403,7 +456,9 @@ def step (s : DState) (line : String) : DState × String :=
           | .error .invariantBroken => "broken"
           | .error .indexOutOfBounds => "oob"
           | .error .noBase => "nobase"
-          | .ok p => showReads s p)
+          | .ok p => match stateClassOrigin s v blk p with
+            | none => "CALIAS-MISMATCH"
+            | some tok => showReads s p ++ " cm=" ++ tok)
     | _, _, _ => (s, "bad-op")
   | "ptick" :: height :: highest :: cfails :: cdefs :: lnum :: lk :: lident :: lver :: ltxs :: rest =>
     match nat? height, natList? cfails ",", pairs? cdefs, nat? lnum, parseUpd? lk lident lver ltxs, parseByNum? rest with
@@ -415,7 +470,7 @@ def step (s : DState) (line : String) : DState × String :=
       let (s', evs, err, agree) := doTick s { height := some ht, highest := optNat highest, src := src }
       let calls := " ; ".intercalate (evs.filterMap showEv)
       let pubs := " | ".intercalate (evs.filterMap fun e => match e with | .publish p => some (showEntry p) | _ => none)
-      (s', if agree then s!"{showTickErr err} | {calls} #pub {pubs}" else "HEAP-MISMATCH")
+      (resyncClasses s', if agree then s!"{showTickErr err} | {calls} #pub {pubs}" else "HEAP-MISMATCH")
     | _, _, _, _, _, _ => (s, "bad-op")
   | ["newchain", nums] =>
     -- NewChain(entries...) with entries numbered `nums` (oldest first)
@@ -443,7 +498,7 @@ def step (s : DState) (line : String) : DState × String :=
       let out := match evs.filterMap showEv with
         | [] => "notip"
         | c :: _ => "tip" ++ (c.drop 2)
-      (s', if agree then out else "HEAP-MISMATCH")
+      (resyncClasses s', if agree then out else "HEAP-MISMATCH")
     | none => (s, "bad-op")
   | _ => (s, "bad-op")
 
